@@ -25,9 +25,32 @@ JOBS = {
     ],
 }
 
+JOBS["C17"] = [
+    H("chainhash", "pure", "^TestC17ChainHash$", {"shards": 6, "checks": 1500, "timeout": 900}, {"shards": 14, "checks": 40000, "timeout": 3400}),
+    H("grouphash", "pure", "^TestC17GroupHash$", {"shards": 6, "checks": 1500, "timeout": 900}, {"shards": 14, "checks": 40000, "timeout": 3400}),
+]
+JOBS["C20"] = [
+    H("fieldguard", "pure", "^TestC20FieldGuard$", {"shards": 1, "checks": 1, "timeout": 120}),
+    H("group", "pure", "^TestC20Group$", {"shards": 5, "checks": 1200, "timeout": 900}, {"shards": 14, "checks": 30000, "timeout": 3400}),
+    H("reject", "pure", "^TestC20Reject$", {"shards": 3, "checks": 1500, "timeout": 900}, {"shards": 8, "checks": 30000, "timeout": 3400}),
+    H("beacon", "pure", "^TestC20Beacon$", {"shards": 2, "checks": 20000, "timeout": 900}, {"shards": 6, "checks": 500000, "timeout": 3400}),
+    H("dbstate", "pure", "^TestC20DBState$", {"shards": 4, "checks": 1000, "timeout": 900}, {"shards": 14, "checks": 20000, "timeout": 3400}),
+]
+
 LEVELS = {"C13": "fault_enumeration"}
 
 RULES = {
+    "C17": "rapid-generated groups over the 5 schemes (1..10 nodes, dense or sparse indices, threshold in [n/2+1,n], with/without distributed key, "
+           "transition time, id in {'', default, custom}, period up to 2^31 s, genesis seed computed / 32 random bytes / other lengths) and the chain Info derived from them; "
+           "per case one drawn single-field perturbation (chain hash: period±1s, genesis±1, key, seed bit/extend/truncate, id; group hash: node key, index, index swap, threshold, genesis, "
+           "transition, dist key, id; controls: period, catch-up, address, signature) plus one drawn permutation of the node list. Oracle: hash equal on every encoding path "
+           "(proto, JSON, proto-JSON, group TOML, group proto), differs under each identified-field perturbation, unchanged by membership/threshold/transition; "
+           "UnmarshalJSON rejects a document whose chain_hash does not match. Non-trivial: chain-hash cases always; group-hash cases with >=2 nodes. Distinct by (group spec, perturbation, permutation).",
+    "C20": "rapid-generated values over the 5 schemes: groups (1..10 nodes, optional dist key / transition / seed kinds / ids, whole-second and sub-second durations), key pairs, identities, shares, chain infos, "
+           "beacons with arbitrary byte strings (nil/empty prev), DKG records in all 12 statuses with/without final group+share, participants with nil/empty/non-empty signatures, nanosecond times. "
+           "Paths: TOML through real files (key.Save/Load), the real bolt dkg.db (SaveCurrent/SaveFinished, close, reopen, Get*), protobuf, JSON. Oracle: field-wise semantic equality written in the harness "
+           "+ equal Group/Info/Identity hashes + encode fixpoint; negative generator: threshold in {0, min-1, n+1, n+k, 2^30}, scheme unknown / wrong case must be refused by TOML and protobuf decoders. "
+           "Non-trivial: groups with >=2 nodes and an optional part, non-empty beacons, records with a final group or participants, every reject case. Distinct by full descriptor.",
     "C16": "grid: every (period 1..12 s, genesis in {0,1,7,100}, offset 0..200) cell and rounds 1..250, enumerated completely; "
            "random: period uniform/log-uniform in [1,2^32-1] s, genesis in [0,2^32], offset uniform/log-uniform in [0,2^50]; "
            "boundary-directed instants T(r)-1,T(r),T(r)+1; 64-bit rounds uniform, 2^k±1, adjacent to the overflow guard and to the reserved time buffer. "
@@ -36,5 +59,7 @@ RULES = {
 }
 
 ASSUMPTIONS = {
+    "C17": ["kyber point marshalling is injective", "sha256 / blake2b collisions are not produced by single-field changes"],
+    "C20": ["values are those the system can produce (scheme set, threshold in range, non-zero genesis and period for the protobuf path)", "nil and empty byte strings are the same value"],
     "C16": ["math/big arithmetic is correct", "period is a whole number of seconds (as the property states)"],
 }
